@@ -134,3 +134,26 @@ Definition scan_blocks_b (ctx : N) (bs : list ((N * N) * list (N * N * bool))) :
 (* the matches reported for a block lie inside it *)
 Definition found_in_block (b : (N * N) * list (N * N * bool)) : Prop :=
   forall f, In f (snd b) -> fst (fst b) <= fst (fst f) /\ fst (fst f) <= snd (fst f) /\ snd (fst f) <= fst (fst b) + snd (fst b).
+
+(* ---- header constraints in block mode ----
+   A rule `$a at 0 and ...` (text literal) makes the compiler attach the header
+   constraint "the data starts with $a's bytes" to the rule's patterns;
+   search_for_patterns disables those patterns (for the rest of the sequence)
+   when a block does not satisfy it.  Which blocks are consulted is GENERATED
+   (header_pruning_only_at_base_zero, header_pruning_requires_covering_block). *)
+Definition hdr_unsatisfied (file hdr : list N) (b : N * N) : bool :=
+  negb ((N.of_nat (length hdr) <=? snd b) && bytes_eqb (slice file (fst b) (fst b + N.of_nat (length hdr))) hdr).
+
+(* the block is taken as evidence that the rule cannot match *)
+Definition hdr_evidence (file hdr : list N) (b : N * N) : bool :=
+  (if header_pruning_only_at_base_zero then fst b =? 0 else true) &&
+  (if header_pruning_requires_covering_block then N.of_nat (length hdr) <=? snd b else true) &&
+  hdr_unsatisfied file hdr b.
+
+(* per block, in delivery order: is the block searched for the rule's patterns?
+   (the check of a block precedes its own search; once disabled, disabled until the next reset) *)
+Fixpoint live_blocks (file hdr : list N) (disabled : bool) (bs : list (N * N)) : list bool :=
+  match bs with
+  | [] => []
+  | b :: r => let d := disabled || hdr_evidence file hdr b in negb d :: live_blocks file hdr d r
+  end.
